@@ -586,7 +586,38 @@ static int sch_ecdsa(sess_t *s) {
 static int sch_ecss(sess_t *s) {
 	switch (s->phase) {
 		case 0: log_rc(s, "gen", cp_ecss_gen(s->b[0], s->e[0])); return 1;
-		case 1: log_rc(s, "sig", cp_ecss_sig(s->b[1], s->b[2], s->msg, s->msg_len, s->b[0])); return 1;
+		case 1: {
+			log_rc(s, "sig", cp_ecss_sig(s->b[1], s->b[2], s->msg, s->msg_len, s->b[0]));
+			fault_t *f = find_fault(s, "forge");
+			if (f && !strcmp(f->kind, "v_forgeinf")) {
+				/* a signature that needs no key: under the identity as public key R = sG, so any s with
+				 * e = H(msg | x(sG) mod n) satisfies the verification equation */
+				uint8_t h[RLC_MD_LEN], *mm = (uint8_t *)malloc(s->msg_len + RLC_FC_BYTES);
+				ec_t p;
+				ec_null(p); ec_new(p);
+				bn_rand_mod(s->b[2], ord);
+				if (bn_is_zero(s->b[2])) bn_set_dig(s->b[2], 1);
+				ec_mul_gen(p, s->b[2]);
+				ec_get_x(s->b[3], p);
+				bn_mod(s->b[3], s->b[3], ord);
+				memcpy(mm, s->msg, s->msg_len);
+				bn_write_bin(mm + s->msg_len, RLC_FC_BYTES, s->b[3]);
+				md_map(h, mm, s->msg_len + RLC_FC_BYTES);
+				if (8 * RLC_MD_LEN > bn_bits(ord)) {
+					size_t l = RLC_CEIL(bn_bits(ord), 8);
+					bn_read_bin(s->b[1], h, l);
+					bn_rsh(s->b[1], s->b[1], 8 * RLC_MD_LEN - bn_bits(ord));
+				} else {
+					bn_read_bin(s->b[1], h, RLC_MD_LEN);
+				}
+				bn_mod(s->b[1], s->b[1], ord);
+				ec_set_infty(s->e[0]);
+				tr_printf("NOTE %d forged-for-identity-key\n", s->sid);
+				ec_free(p);
+				free(mm);
+			}
+			return 1;
+		}
 		case 2: {
 			int ok = 1;
 			ok &= xmit_ec(s, "pk", s->e[5], s->e[0], (int)s->opt[1]);
